@@ -419,15 +419,33 @@ def c09_m_message_tag_agreement(ctx, v):
             r, m = ex.model_for(g.pc, z3.And(enum_is(ex, e, "Ok"), g.value.bv != tag))
             v.queries += 1
             if r == z3.sat:
-                L.fail_structural(v, g, "a message sent with type byte %d decodes into a message of type %d" % (m.eval(tag, model_completion=True).as_long(), m.eval(g.value.bv, model_completion=True).as_long()))
+                if L.fail_structural(v, g, "a message sent with type byte %d decodes into a message of type %d" % (m.eval(tag, model_completion=True).as_long(), m.eval(g.value.bv, model_completion=True).as_long())) and v.replay_rust is None:
+                    n_ = m.eval(buf0_len[0].bv, model_completion=True).as_long() if buf0_len else 0
+                    data = [m.eval(z3.Select(orig[0], z3.BitVecVal(i, 64)), model_completion=True).as_long() for i in range(min(n_, 260))]
+                    v.replay_rust = ("replay_c09_message_tag", """
+#[test]
+fn replay_c09_message_tag() {
+    let buf: Vec<u8> = vec![%s];
+    let msg = saito_core::core::msg::message::Message::deserialize(buf.clone()).expect("the buffer decodes");
+    assert_eq!(msg.get_type_value(), buf[0], "the decoded message is of another type than the one sent");
+}
+""" % ", ".join(str(x) for x in data))
             elif r == z3.unsat:
                 seen.append(1)
     vv = type(v)()
-    orig = []
-    obl_c10._explore_total(ctx, vv, "Message::deserialize", body, lambda ex, b: (orig.append(b.arr), [b])[1], 200, 8,
+    orig, buf0_len = [], []
+    obl_c10._explore_total(ctx, vv, "Message::deserialize", body, lambda ex, b: (orig.append(b.arr), buf0_len.append(S.I(b.len.bv)), [b])[2], 200, 8,
                            no_inline=[r"Block::deserialize_from_net$", r"Transaction::deserialize_from_net$", r"HandshakeResponse.*deserialize$"], on_ok=on_ok)
     v.paths += vv.paths
     if vv.status == "undecided" and vv.why:
         return v.undecided(vv.why)
     v.covers_total += 1
     v.covers_sat += 1 if seen else 0
+
+
+def c09_lite_header_copy(ctx, v):
+    """a lite block crosses the wire and must keep its hash and signature validity: every signed
+    header field of the lite block equals the full block's (same obligation as C18
+    c18_lite_header_copy)."""
+    from . import obl_c18
+    obl_c18.c18_lite_header_copy(ctx, v)
